@@ -199,6 +199,26 @@ def callers_extra_args_are_not_mutated(ctx):
         ctx.ob(m, f'{mname}(): extra_args {"copied" if copied else "passed through"}; transfer path mutates it: {needs_copy}',
                copied or not needs_copy, "the caller's extra_args dict is mutated by the transfer: a second transfer reusing the dict sees the first one's edits",
                trivial=not needs_copy)
+    # the copy source: the HeadObject request is built from the caller's copy_source dict and then written into (mapped conditions,
+    # SSE-C keys); it must be a copy, on every path of the helper that derives it
+    cp = ctx.expanded().func('copies.CopySubmissionTask._submit')
+    writes = [n for n in own_nodes(cp.node) if isinstance(n, ast.Assign) and isinstance(n.targets[0], ast.Subscript) and isinstance(n.targets[0].value, ast.Name)]
+    seen = set()
+    for w in writes:
+        nm = w.targets[0].value.id
+        if nm in seen:
+            continue
+        seen.add(nm)
+        defs = [v for _, v in q.local_defs(cp, nm) if isinstance(v, ast.AST)]
+        from_source = [v for v in defs if 'copy_source' in norm(v)]
+        if not from_source:
+            continue
+        okc = all(isinstance(v, ast.Call) and (norm(v.func) in ('copy.copy', 'copy.deepcopy', 'dict') or (isinstance(v.func, ast.Attribute) and v.func.attr == 'copy'))
+                  or isinstance(v, ast.Dict) for v in from_source)
+        ctx.ob(cp.qualname, f'{nm} (written into for HeadObject) is a copy of the caller\'s copy_source', okc,
+               f"{nm} = {[norm(v) for v in from_source]}: the mapped HeadObject arguments are written into the caller's own copy_source dict; the next copy that reuses the "
+               'dict sends conditions / keys it never asked for', node=w)
+    ctx.need(seen, 'copy: the HeadObject request dict was not found')
 
 
 def _instance_attrs(cls):
